@@ -68,7 +68,9 @@ fn rg_path(dir: &Path, rg_idx: usize) -> PathBuf {
 /// * the build itself writes into a `.<pid>.building` staging dir that is
 ///   atomically RENAMED into place — a reader can never observe a
 ///   half-written sidecar, and if a rename loses a cross-process race the
-///   loser deletes its staging dir and uses the winner's.
+///   loser deletes its staging dir and uses the winner's;
+/// * an exclusive file lock (`<sidecar>.lock`) held from the second fresh-check
+///   to the rename extends the mutex to other processes.
 ///
 /// Without these, cold-start parallel tests failed nondeterministically
 /// (readers mmapping files another builder was still writing).
@@ -92,6 +94,26 @@ pub fn ensure_sidecar(parquet_path: &Path) -> Option<PathBuf> {
     #[cfg(feature = "verif-hooks")]
     crate::verif::yield_point(42); // decided to build, before BUILD_LOCK
     let _guard = BUILD_LOCK.lock().ok()?;
+    // Cross-process half of the lock: BUILD_LOCK only serializes the builders
+    // of THIS process. Another process that also found the sidecar missing
+    // would run `remove_dir_all(final)` on the winner's freshly published
+    // directory while a reader is between `is_fresh` and `open(rg_k)` — the
+    // reader's query then fails with ENOENT. An exclusive advisory lock on a
+    // sibling lock file (released when `_xlock` is dropped) makes the
+    // fresh re-check below + build + publish one critical section for every
+    // process sharing the data directory, so a fresh sidecar is never removed.
+    let _xlock = {
+        let mut name = dir.file_name().unwrap_or_default().to_os_string();
+        name.push(".lock");
+        let f = std::fs::OpenOptions::new()
+            .create(true)
+            .write(true)
+            .truncate(false)
+            .open(dir.with_file_name(name))
+            .ok()?;
+        f.lock().ok()?;
+        f
+    };
     #[cfg(feature = "verif-hooks")]
     crate::verif::yield_point(43); // holds BUILD_LOCK, before the second is_fresh
     if is_fresh(&dir, &src_meta) {
